@@ -144,23 +144,78 @@ Ltac pows :=
 Lemma meta_line_lt m : meta_line m < 4294967296.
 Proof. unfold meta_line. pows. lia. Qed.
 
+(** [a / b] and [a mod b] from an explicit decomposition (keeps the proof terms small) *)
+Lemma div_u a b q r : r < b -> a = b * q + r -> a / b = q.
+Proof. intros H E. symmetry. now apply (N.div_unique a b q r). Qed.
+Lemma mod_u a b q r : r < b -> a = b * q + r -> a mod b = r.
+Proof. intros H E. symmetry. now apply (N.mod_unique a b q r). Qed.
+
+(** a 32-bit line split into its 2+6+6+6+6+6 bit groups *)
+Lemma line_groups line : line < 4294967296 ->
+  exists a b r c d e, a < 4 /\ b < 64 /\ r < 64 /\ c < 64 /\ d < 64 /\ e < 64 /\
+    line = a * 1073741824 + b * 16777216 + r * 262144 + c * 4096 + d * 64 + e.
+Proof.
+  intros H.
+  pose proof (N.div_mod line 64 ltac:(discriminate)) as E0. pose proof (N.mod_lt line 64 ltac:(discriminate)) as L0.
+  set (q0 := line / 64) in *. set (e := line mod 64) in *. clearbody q0 e.
+  pose proof (N.div_mod q0 64 ltac:(discriminate)) as E1. pose proof (N.mod_lt q0 64 ltac:(discriminate)) as L1.
+  set (q1 := q0 / 64) in *. set (d := q0 mod 64) in *. clearbody q1 d.
+  pose proof (N.div_mod q1 64 ltac:(discriminate)) as E2. pose proof (N.mod_lt q1 64 ltac:(discriminate)) as L2.
+  set (q2 := q1 / 64) in *. set (c := q1 mod 64) in *. clearbody q2 c.
+  pose proof (N.div_mod q2 64 ltac:(discriminate)) as E3. pose proof (N.mod_lt q2 64 ltac:(discriminate)) as L3.
+  set (q3 := q2 / 64) in *. set (r := q2 mod 64) in *. clearbody q3 r.
+  pose proof (N.div_mod q3 64 ltac:(discriminate)) as E4. pose proof (N.mod_lt q3 64 ltac:(discriminate)) as L4.
+  set (q4 := q3 / 64) in *. set (b := q3 mod 64) in *. clearbody q4 b.
+  exists q4, b, r, c, d, e. repeat split; try assumption; lia.
+Qed.
+
+Lemma groups_fields a b r c d e : a < 4 -> b < 64 -> r < 64 -> c < 64 -> d < 64 -> e < 64 ->
+  let line := a * 1073741824 + b * 16777216 + r * 262144 + c * 4096 + d * 64 + e in
+  line / 1073741824 = a /\ (line / 16777216) mod 64 = b /\ (line / 262144) mod 64 = r /\
+  (line / 4096) mod 64 = c /\ (line / 64) mod 64 = d /\ line mod 64 = e.
+Proof.
+  intros Ha Hb Hr Hc Hd He line. subst line.
+  split; [apply div_u with (r := b * 16777216 + r * 262144 + c * 4096 + d * 64 + e); lia|].
+  split.
+  { rewrite (div_u _ 16777216 (a * 64 + b) (r * 262144 + c * 4096 + d * 64 + e)) by lia.
+    apply mod_u with (q := a); lia. }
+  split.
+  { rewrite (div_u _ 262144 (a * 4096 + b * 64 + r) (c * 4096 + d * 64 + e)) by lia.
+    apply mod_u with (q := a * 64 + b); lia. }
+  split.
+  { rewrite (div_u _ 4096 (a * 262144 + b * 4096 + r * 64 + c) (d * 64 + e)) by lia.
+    apply mod_u with (q := a * 4096 + b * 64 + r); lia. }
+  split.
+  { rewrite (div_u _ 64 (a * 16777216 + b * 262144 + r * 4096 + c * 64 + d) e) by lia.
+    apply mod_u with (q := a * 262144 + b * 4096 + r * 64 + c); lia. }
+  apply mod_u with (q := a * 16777216 + b * 262144 + r * 4096 + c * 64 + d); lia.
+Qed.
+
 Lemma meta_of_line_line m : wf_meta m -> meta_of_line (meta_line m) = m.
 Proof.
   intros (H1 & H2 & H3 & H4 & H5). destruct m as [ci ch s0 s1 s2]. cbn in *.
   unfold meta_of_line, meta_line. cbn [m_currinf m_currhf m_seg0 m_seg1 m_seg2]. pows.
-  f_equal; lia.
+  rewrite !N.mod_small by assumption.
+  destruct (groups_fields ci ch 0 s0 s1 s2) as (F1 & F2 & _ & F4 & F5 & F6); try assumption; try lia.
+  cbv zeta in *. rewrite N.mul_0_l, N.add_0_r in *. now rewrite F1, F2, F4, F5, F6.
 Qed.
 
 Lemma meta_line_of_line line : line < 4294967296 -> meta_line (meta_of_line line) = clear_rsv line.
 Proof.
-  intros H. unfold meta_of_line, meta_line, clear_rsv.
-  cbn [m_currinf m_currhf m_seg0 m_seg1 m_seg2]. pows. lia.
+  intros H. destruct (line_groups line H) as (a & b & r & c & d & e & Ha & Hb & Hr & Hc & Hd & He & ->).
+  destruct (groups_fields a b r c d e) as (F1 & F2 & F3 & F4 & F5 & F6); try assumption.
+  cbv zeta in *.
+  unfold meta_of_line, meta_line, clear_rsv. cbn [m_currinf m_currhf m_seg0 m_seg1 m_seg2]. pows.
+  rewrite F1, F2, F3, F4, F5, F6. rewrite !N.mod_small by assumption. lia.
 Qed.
 
 Lemma wf_meta_of_line line : line < 4294967296 -> wf_meta (meta_of_line line).
 Proof.
-  intros H. unfold wf_meta, meta_of_line. cbn [m_currinf m_currhf m_seg0 m_seg1 m_seg2]. pows.
-  repeat split; lia.
+  intros H. destruct (line_groups line H) as (a & b & r & c & d & e & Ha & Hb & Hr & Hc & Hd & He & ->).
+  destruct (groups_fields a b r c d e) as (F1 & F2 & F3 & F4 & F5 & F6); try assumption.
+  cbv zeta in *.
+  unfold wf_meta, meta_of_line. cbn [m_currinf m_currhf m_seg0 m_seg1 m_seg2]. pows.
+  rewrite F1, F2, F4, F5, F6. auto.
 Qed.
 
 Lemma meta_encode_length m : length (meta_encode m) = meta_len.
@@ -179,7 +234,11 @@ Lemma clear_rsv_bytes b0 b1 b2 b3 :
   b0 < 256 -> b1 < 256 -> b2 < 256 -> b3 < 256 ->
   clear_rsv (unbe [b0; b1; b2; b3]) = unbe [b0; b1 mod 4; b2; b3].
 Proof.
-  intros. unfold clear_rsv, unbe. cbn [fold_left]. pows. lia.
+  intros H0 H1 H2 H3. unfold clear_rsv, unbe. cbn [fold_left]. pows.
+  pose proof (N.div_mod b1 4 ltac:(discriminate)) as E. pose proof (N.mod_lt b1 4 ltac:(discriminate)) as L.
+  set (h := b1 / 4) in *. set (l := b1 mod 4) in *. clearbody h l. subst b1.
+  rewrite (div_u _ 262144 (b0 * 64 + h) (l * 65536 + b2 * 256 + b3)) by lia.
+  rewrite (mod_u (b0 * 64 + h) 64 b0 h) by lia. lia.
 Qed.
 
 Lemma be4_bytes line : line < 4294967296 ->
